@@ -5,6 +5,7 @@ import (
 	"go/constant"
 	"go/token"
 	"go/types"
+	"sort"
 	"strings"
 
 	"golang.org/x/tools/go/ssa"
@@ -409,4 +410,46 @@ func (e *Expr) globalsMentioned() []string {
 		return true
 	})
 	return out
+}
+
+// linear renders an integer expression built from + and - as a canonical sum
+// (terms sorted, constants folded), so that (a+b)+1 and a+(b+1) compare equal.
+func (e *Expr) linear() string {
+	terms := map[string]int64{}
+	var k int64
+	var walk func(x *Expr, sign int64)
+	walk = func(x *Expr, sign int64) {
+		if x == nil {
+			return
+		}
+		if v, ok := x.intConst(); ok {
+			k += sign * v
+			return
+		}
+		if x.Op == OpBin && (x.Tok == token.ADD || x.Tok == token.SUB) {
+			walk(x.Args[0], sign)
+			if x.Tok == token.ADD {
+				walk(x.Args[1], sign)
+			} else {
+				walk(x.Args[1], -sign)
+			}
+			return
+		}
+		terms[x.String()] += sign
+	}
+	walk(e, 1)
+	var ks []string
+	for t := range terms {
+		ks = append(ks, t)
+	}
+	sort.Strings(ks)
+	var b strings.Builder
+	for _, t := range ks {
+		if terms[t] == 0 {
+			continue
+		}
+		fmt.Fprintf(&b, "%+d*%s ", terms[t], t)
+	}
+	fmt.Fprintf(&b, "%+d", k)
+	return b.String()
 }
